@@ -952,8 +952,8 @@ def _p_expr(rng, depth=0):
         return rng.choice(['"#{%s}"' % _p_expr(rng, depth + 1), "#{%s}" % _p_expr(rng, depth + 1),
                            'quote(%s)' % rng.choice(["foo", '"a"']), "unquote(%s)" % rng.choice(['"a b"', '"é"', "'q'", "foo"]),
                            'str-insert("abc", %s, 2)' % rng.choice(P_STRS[:4]),
-                           "%s + %s" % (rng.choice(["white", "#ff0000", "aquamarine", "$c", "#f00", "rgba(1, 2, 3, 0.5)"]),
-                                        rng.choice(["-fg", '""', "x", '"-q"', "null"])),
+                           "%s + %s" % (rng.choice(["white", "#ff0000", "aquamarine", "#f00"]), rng.choice(["-fg", '""', "x", "null"])),
+                           'str-length(%s + %s)' % (rng.choice(["$c", "rgba(1, 2, 3, 0.5)", "#fff"]), rng.choice(["-fg", '"-q"', "x"])),
                            'str-length(%s + %s)' % (rng.choice(["white", "#ff0000", "aquamarine", "$c"]), rng.choice(["-fg", '""', "x"])), '"a" + "%s"' % rng.choice(["b", " c", "é"]),
                            "to-upper-case($s)", "str-length(\"#{%s}\")" % _p_expr(rng, depth + 1),
                            "to-lower-case(%s)" % rng.choice(P_STRS)])
@@ -964,6 +964,8 @@ def _p_expr(rng, depth=0):
     return rng.choice(["if($n > 1, %s, %s)" % (_p_expr(rng, depth + 1), _p_expr(rng, depth + 1)),
                        "round(%s)" % _p_num(rng), "percentage(0.%d)" % rng.randrange(1, 99),
                        "math.div(1, 3)", "math.div(2, 3) * 1px", "min(1px, 2px)", "calc(1px + 2%)", "calc(0.5 * 3px)",
+                       "calc(100% - 32px)", "calc(var(--a) - 1px)", "min(1px - 1%, 2em)", "clamp(1px, 50% - 2px, 3em)",
+                       "calc(1px - (2% - 3em))", "max(10% - 1px, 2px + 1%)", "calc(-1 * (1px - 2%))",
                        "abs(-0.5)", "max(0.5, 0.25)", "f(%s)" % _p_num(rng), "map-get($m, k)", "null", "()"][:-1])
 
 
